@@ -79,7 +79,9 @@ type advCase struct {
 	DeadlineLat time.Duration
 	// Dynamic: the configuration has deprecated options that count down during
 	// the scenario.
-	Dynamic       bool
+	Dynamic bool
+	// MACPerGen: the hardware address changes (or vanishes) between dials.
+	MACPerGen     bool
 	StopHook      string
 	StopHookAfter time.Duration
 	StopHookDelay time.Duration
@@ -174,6 +176,7 @@ func advRun(t *testing.T, c *advCase) *advResult {
 	}
 	res.panicMsg = vBubble(t, func() {
 		h := vNewH(ifi, exp, c.Seed)
+		h.macPerGen = c.MACPerGen
 		h.st.SetForwarding(ifi.Name, c.Fwd)
 		h.st.ReadLatency = c.FwdLat
 		h.connSetup = func(cn *vfake.Conn) {
@@ -468,6 +471,12 @@ func advContent(r *vlib.Run, c *advCase, res *advResult, exp *model.ExpIface) bo
 			// the bubble's clock starts at 2000-01-01 and the trace after the
 			// scenario's seed offset: the instant this RA was handed to the socket
 			at := time.Date(2000, 1, 1, 0, 0, 0, 0, time.UTC).Add(c.Seed).Add(e.T)
+			if c.MACPerGen {
+				sys = &model.Sys{}
+				if m := vMACOf(e.Gen); m != nil {
+					sys.MAC = m
+				}
+			}
 			want, _, _ := model.ExpectedRA(&ex, sys, fw, vEpoch, at)
 			if d := model.DiffRA(want, *e.RA); d != "" {
 				r.Violation(c.ID, "ra-content", fmt.Sprintf("RA transmitted at %v differs from the configuration (forwarding=%v): %s", e.T, fw, d), advDetail(c, res.ev))
